@@ -73,16 +73,16 @@ Proof.
   rewrite Hv. destruct w; reflexivity.
 Qed.
 
-Definition gen_updateData (buf : list DemuxerData) (opt : Z) (gp : option go_parser) (gs : option go_skipper)
+Definition update_data_is_generated_subject (buf : list DemuxerData) (opt : Z) (gp : option go_parser) (gs : option go_skipper)
   (pb : option gpb) (pl : pool) (ds : list DemuxerData) (w : mworld) :=
   Demuxer_updateData mworld unit unit gpb pool unit unit pm_set_m tt buf tt opt gp gs pb pl tt tt ds w.
 
 Lemma update_data_is_generated buf opt gp gs pb pl ds w :
-  gen_updateData buf opt gp gs pb pl ds w =
+  update_data_is_generated_subject buf opt gp gs pb pl ds w =
   Done (match ds with [] => buf | _ :: rest => buf ++ rest end, hd_error ds,
         set_pm w (fold_left pm_add (flat_map pat_pids ds) (mw_pm w))).
 Proof.
-  unfold gen_updateData, Demuxer_updateData.
+  unfold update_data_is_generated_subject, Demuxer_updateData.
   destruct ds as [|d rest]; [destruct w; reflexivity|].
   set (ds := d :: rest).
   replace (Z.of_nat (List.length ds) >? 0) with true by (subst ds; cbn [List.length]; lia).
@@ -104,7 +104,7 @@ Proof. destruct ds as [|d rest]; destruct w; reflexivity. Qed.
 
 (* ---- NextPacket ---- *)
 
-Definition gen_NextPacket (s : dstate) :=
+Definition next_packet_is_generated_subject (s : dstate) :=
   Demuxer_NextPacket mworld unit unit gpb pool unit unit ctx_err_m (new_pb_m err_of) (pb_next_m err_of)
     tt (d_buffer s) tt (d_opt_size s) go_prs go_sk (with_sk (d_pb s)) (d_pool s) tt tt (world_of s).
 
@@ -130,9 +130,9 @@ Proof.
   - rewrite code_x_wrap, err_of_code. split; [reflexivity|]. cbn [gerr_eqb e_nomore]. rewrite ?E. reflexivity.
 Qed.
 
-Theorem next_packet_is_generated s : np_rel s (gen_NextPacket s).
+Theorem next_packet_is_generated s : np_rel s (next_packet_is_generated_subject s).
 Proof.
-  unfold np_rel, gen_NextPacket, Demuxer_NextPacket, ctx_err_m. cbn [obind is_some].
+  unfold np_rel, next_packet_is_generated_subject, Demuxer_NextPacket, ctx_err_m. cbn [obind is_some].
   unfold next_packet. destruct s as [buf pb pl pm r opt grp cons]. unfold world_of.
   cbn [d_pb d_buffer d_pool d_opt_size d_reader d_pm d_groups d_consulted].
   assert (Hnext : forall (pb0 : pbuf) (r0 : reader),
@@ -215,7 +215,7 @@ Definition nd_rel (fuel_out : Prop) (opt : Z) (o : nd_out) (m : res DemuxerData 
   | OutOfFuel => fuel_out
   end.
 
-Definition gen_loop2 (fuel : nat) (s : dstate) (ds : list DemuxerData) (err : option gerr) (f1 f2 : nat)
+Definition drain_is_generated_subject (fuel : nat) (s : dstate) (ds : list DemuxerData) (err : option gerr) (f1 f2 : nat)
   (p : option Packet) (ps : list Packet) : nd_out :=
   Demuxer_NextData_loop2 mworld unit unit gpb pool unit unit pm_set_m pool_dump_m (parse_data_m err_of P)
     fuel None tt (d_buffer s) tt (d_opt_size s) go_sk go_prs (with_sk (d_pb s)) (d_pool s) tt tt ds err f1 f2 p ps (world_of s).
@@ -234,11 +234,11 @@ Proof. unfold pool_dump_m. destruct (pool_dump pl). reflexivity. Qed.
 
 Lemma drain_is_generated : forall fuel s ds0 e f1 f2 p0 ps0,
   (List.length (d_pool s) < fuel)%nat -> gerr_eqb e e_nomore = true ->
-  nd_rel False (d_opt_size s) (gen_loop2 fuel s ds0 (Some e) f1 f2 p0 ps0) (drain P prs fuel s).
+  nd_rel False (d_opt_size s) (drain_is_generated_subject fuel s ds0 (Some e) f1 f2 p0 ps0) (drain P prs fuel s).
 Proof.
   induction fuel as [|k IH]; intros s ds0 e f1 f2 p0 ps0 Hfuel He; [lia|].
   destruct s as [buf pb pl pm r opt grp cons].
-  unfold gen_loop2. cbn [Demuxer_NextData_loop2 drain]. unfold world_of. rewrite pool_dump_m_eq.
+  unfold drain_is_generated_subject. cbn [Demuxer_NextData_loop2 drain]. unfold world_of. rewrite pool_dump_m_eq.
   cbn [d_pb d_buffer d_pool d_opt_size d_reader d_pm d_groups d_consulted] in *.
   pose proof (pool_dump_shrinks pl) as Hs.
   destruct (pool_dump pl) as [pl' ps]. cbn [fst snd] in *. cbn [obind].
@@ -251,7 +251,7 @@ Proof.
     rewrite parse_data_m_eq. cbn [mw_reader mw_pm mw_groups mw_consulted].
     destruct (parse_data P prs pm (pk :: ps')) as [ds|c|]; cbn [obind is_some].
     + change (Demuxer_updateData mworld unit unit gpb pool unit unit pm_set_m tt buf tt opt go_prs go_sk (with_sk pb) pl' tt tt ds ?w)
-        with (gen_updateData buf opt go_prs go_sk (with_sk pb) pl' ds w).
+        with (update_data_is_generated_subject buf opt go_prs go_sk (with_sk pb) pl' ds w).
       rewrite update_data_is_generated. cbn [obind].
       pose proof (update_data_state buf pb pl' opt (mk_mworld r pm (grp ++ [pk :: ps']) cons) ds) as Hu.
       unfold state_of in Hu at 1. cbn [mw_reader mw_pm mw_groups mw_consulted] in Hu. rewrite Hu. clear Hu.
@@ -269,7 +269,7 @@ Lemma pool_add_m_eq w pl pk :
   pool_add_m w pl (Some pk) = Done (fst (pool_add (mw_pm w) pl pk), snd (pool_add (mw_pm w) pl pk), w).
 Proof. unfold pool_add_m. destruct (pool_add (mw_pm w) pl pk). reflexivity. Qed.
 
-Definition gen_loop1 (fuel : nat) (s : dstate) (ds : list DemuxerData) (err : option gerr) (f1 f2 : nat)
+Definition loop_is_generated_subject (fuel : nat) (s : dstate) (ds : list DemuxerData) (err : option gerr) (f1 f2 : nat)
   (p : option Packet) (ps : list Packet) : nd_out :=
   Demuxer_NextData_loop1 mworld unit unit gpb pool unit unit pm_set_m ctx_err_m (new_pb_m err_of) (pb_next_m err_of)
     pool_dump_m (parse_data_m err_of P) pool_add_m
@@ -278,15 +278,15 @@ Definition gen_loop1 (fuel : nat) (s : dstate) (ds : list DemuxerData) (err : op
 Lemma loop_is_generated : forall fuel s ds0 err0 f1 f2 p0 ps0,
   (List.length (d_pool s) + fuel < f2)%nat ->
   nd_rel (fst (next_data_loop P prs skip fuel s) = Err E_generic) (d_opt_size s)
-         (gen_loop1 fuel s ds0 err0 f1 f2 p0 ps0) (next_data_loop P prs skip fuel s).
+         (loop_is_generated_subject fuel s ds0 err0 f1 f2 p0 ps0) (next_data_loop P prs skip fuel s).
 Proof.
   induction fuel as [|k IH]; intros s ds0 err0 f1 f2 p0 ps0 Hfuel; [reflexivity|].
-  unfold gen_loop1. cbn [Demuxer_NextData_loop1 next_data_loop].
+  unfold loop_is_generated_subject. cbn [Demuxer_NextData_loop1 next_data_loop].
   change (Demuxer_NextPacket mworld unit unit gpb pool unit unit ctx_err_m (new_pb_m err_of) (pb_next_m err_of)
             tt (d_buffer s) tt (d_opt_size s) go_prs go_sk (with_sk (d_pb s)) (d_pool s) tt tt (world_of s))
-    with (gen_NextPacket s).
+    with (next_packet_is_generated_subject s).
   pose proof (next_packet_is_generated s) as Hnp. unfold np_rel in Hnp.
-  destruct (gen_NextPacket s) as [[[[pb' p] err] w']| |]; [| |contradiction].
+  destruct (next_packet_is_generated_subject s) as [[[[pb' p] err] w']| |]; [| |contradiction].
   2:{ destruct (next_packet skip s) as [rp s1]. cbn [fst] in Hnp. subst rp. reflexivity. }
   destruct (next_packet skip s) as [rp s1]. cbn [fst snd] in Hnp. destruct Hnp as (Hr & Hpb & Hs1).
   remember (d_pb s1) as pbx eqn:Epbx. clear Epbx. subst s1 pb'. cbn [obind].
@@ -313,7 +313,7 @@ Proof.
       rewrite parse_data_m_eq. cbn [mw_reader mw_pm mw_groups mw_consulted].
       destruct (parse_data P prs wpm (p1 :: ps')) as [ds|c|]; cbn [obind is_some].
       * change (Demuxer_updateData mworld unit unit gpb pool unit unit pm_set_m tt buf tt opt go_prs go_sk (with_sk pbx) pl' tt tt ds ?w)
-          with (gen_updateData buf opt go_prs go_sk (with_sk pbx) pl' ds w).
+          with (update_data_is_generated_subject buf opt go_prs go_sk (with_sk pbx) pl' ds w).
         rewrite update_data_is_generated. cbn [obind].
         pose proof (update_data_state buf pbx pl' opt (mk_mworld wr wpm (wg ++ [p1 :: ps']) wc) ds) as Hu.
         unfold state_of in Hu at 1. cbn [mw_reader mw_pm mw_groups mw_consulted] in Hu. rewrite Hu. clear Hu.
@@ -324,19 +324,19 @@ Proof.
       * reflexivity.
 Qed.
 
-Definition gen_NextData (s : dstate) (f2 : nat) : nd_out :=
+Definition next_data_is_generated_subject (s : dstate) (f2 : nat) : nd_out :=
   Demuxer_NextData mworld unit unit gpb pool unit unit pm_set_m ctx_err_m (new_pb_m err_of) (pb_next_m err_of)
     pool_dump_m (parse_data_m err_of P) pool_add_m
     tt (d_buffer s) tt (d_opt_size s) go_prs go_sk (with_sk (d_pb s)) (d_pool s) tt tt (nd_fuel s) f2 (world_of s).
 
 Theorem next_data_is_generated s f2 : (List.length (d_pool s) + nd_fuel s < f2)%nat ->
-  nd_rel (fst (next_data P prs skip s) = Err E_generic) (d_opt_size s) (gen_NextData s f2) (next_data P prs skip s).
+  nd_rel (fst (next_data P prs skip s) = Err E_generic) (d_opt_size s) (next_data_is_generated_subject s f2) (next_data P prs skip s).
 Proof.
-  intros Hfuel. unfold gen_NextData, Demuxer_NextData, next_data.
+  intros Hfuel. unfold next_data_is_generated_subject, Demuxer_NextData, next_data.
   destruct (d_buffer s) as [|d rest] eqn:Eb.
   - cbn [List.length Z.of_nat Z.gtb Z.compare].
     pose proof (loop_is_generated (nd_fuel s) s [] None (nd_fuel s) f2 None [] Hfuel) as H.
-    unfold gen_loop1 in H. rewrite Eb in H. exact H.
+    unfold loop_is_generated_subject in H. rewrite Eb in H. exact H.
   - replace (Z.of_nat (List.length (d :: rest)) >? 0) with true by (cbn [List.length]; lia).
     replace (0 <? Z.of_nat (List.length (d :: rest))) with true by (cbn [List.length]; lia).
     replace (1 <=? Z.of_nat (List.length (d :: rest))) with true by (cbn [List.length]; lia).
